@@ -5,8 +5,8 @@ from props import judges
 from props.common import TRUSTED_BASE, ASSUMPTIONS
 
 ID = "C06"
-LEAN_MODULES = ["LexVerif.Props.C06", "LexVerif.Props.RoundNE"]
-GEN = []
+LEAN_MODULES = ["LexVerif.Props.C06", "LexVerif.Props.RoundNE", "LexVerif.Props.TablesWrite"]
+GEN = ["write_tables"]
 TRUSTED = TRUSTED_BASE + [
     "binary.rs / hex.rs writers are not modelled in Lean yet: every output is evaluated EXACTLY (as a rational) by the Lean oracle and compared with the float's value, and re-parsed by the implementation",
 ]
@@ -64,6 +64,12 @@ def streams(tier, rng, fs, profile):
     return [("g-bits-pow2", ops)]
 
 
+def all_digits(outhex, fmt):
+    r = (int(fmt, 16) >> 104) & 255
+    body = bytes.fromhex(outhex).lstrip(b"+-")
+    return all(c in gens.DIGITS[:r].encode() + gens.DIGITS[:r].lower().encode() for c in body)
+
+
 def nontrivial(op, res):
     return res.startswith("ok")
 
@@ -94,6 +100,8 @@ def post(ctx, bins):
             elif not special and not vd["exact"]:
                 viol.append(judges.viol(fs, profile, sname + "/exact", ops[i], impl[i], "value exactly equal to the float",
                                         "output value differs from the float (nearest float is %d ulp away)" % vd["ulp"]))
+            if special and all_digits(out, fmt):
+                continue        # e.g. radix 32: "inf"/"NaN" are ordinary digit strings of the radix, not specials
             bt = bk.split(" ")
             want = "nan" if (special and (b & ((1 << (p - 1)) - 1))) else "%x" % b
             if bt[0] != "ok" or bt[1] != want:
